@@ -921,6 +921,12 @@ func execCallers(rec *Record, c Case) {
 						}
 						o.Results, o.Err = v.ValidateContext(context.Background(), revocation.ValidateContextOptions{CertChain: env.Chain, AuthenticSigningTime: st})
 					})
+					// the results are this caller's: it keeps a copy for the comparison
+					// and then writes all over the originals - which no other call's
+					// results may feel
+					cp := copyResults(o.Results)
+					scribbleResults(o.Results)
+					o.Results = cp
 					results <- res{i % 2, o}
 				}
 			}(i)
@@ -948,6 +954,45 @@ func execCallers(rec *Record, c Case) {
 	rec.Canon = fmt.Sprintf("%d results compared, %d cache operations", n, len(cache.Log()))
 	envA.Cache = cache // the cache the callers actually shared
 	afterCall(rec, envA)
+}
+
+func copyResults(rs []*result.CertRevocationResult) []*result.CertRevocationResult {
+	if rs == nil {
+		return nil
+	}
+	out := make([]*result.CertRevocationResult, len(rs))
+	for i, cr := range rs {
+		if cr == nil {
+			continue
+		}
+		c := *cr
+		c.ServerResults = nil
+		for _, sr := range cr.ServerResults {
+			if sr == nil {
+				c.ServerResults = append(c.ServerResults, nil)
+				continue
+			}
+			s := *sr
+			c.ServerResults = append(c.ServerResults, &s)
+		}
+		out[i] = &c
+	}
+	return out
+}
+
+func scribbleResults(rs []*result.CertRevocationResult) {
+	for _, cr := range rs {
+		if cr == nil {
+			continue
+		}
+		for _, sr := range cr.ServerResults {
+			if sr != nil {
+				sr.Result, sr.Server, sr.Error = result.Result(77), "scribbled-by-the-caller", errors.New("the caller's own note")
+			}
+		}
+		cr.Result = result.Result(77)
+		cr.ServerResults = append(cr.ServerResults, &result.ServerResult{Server: "appended-by-the-caller", Result: result.Result(78)})
+	}
 }
 
 // execCallersFault runs n callers over one shared validator / client / fetcher
